@@ -13,7 +13,8 @@ from framework import P, hexf
 
 PID = 'C14'
 LEVEL = 'proof'
-LEAN_TARGETS = ['Swiftness.Props.C14']
+LEAN_TARGETS = ['Swiftness.Props.C14', 'Swiftness.Props.C14dyn']
+PROPS_FILES = ['C14', 'C14dyn']
 TRANSLATOR_PARTS = ('consts', 'ast')
 STATIC = ['dex', 'recursive', 'recursive_with_poseidon', 'small', 'starknet', 'starknet_with_keccak']
 DRV_LAYOUTS = STATIC + ['dynamic']
@@ -24,7 +25,7 @@ RULE = ('bases: the public input of each layout\'s shipped proof (with its own t
         'program/output address +1 (sampled), all addresses +1000, page truncated at both ends, two cells swapped, output length +-1, empty output (cells dropped / kept), one output cell, '
         'initial_pc/final_pc changed, a continuous page header added, segments removed. dynamic layout (validate): every dynamic parameter '
         '(quick: every row ratio / switch / column count and a third of the 340) x {+1,-1,x2,/2,0,+2^32,2^64-1}; per builtin: usage at / over capacity, '
-        'non-multiple, switch toggled with and without the segment emptied, row ratio in {0,1,3,T,2T}. non-trivial = mutated.')
+        'non-multiple, switch toggled with and without the segment emptied, row ratio in {0,1,3,T,2T}; all of it on TWO bases: the shipped dynamic public input and an instance with every builtin switched on, found by a local search against the translated assertion list. non-trivial = mutated.')
 ASSUMPTIONS = ['dynamic layout: hand-written Lean model + translated assertion list, tied by the correspondence check on mutated instances of the shipped dynamic public input',
                'Pedersen is modelled by executable Lean code compared on every case']
 TRUSTED = ['Python oracle: property sentence over integers; program/output cells by ADDRESS']
@@ -158,6 +159,54 @@ def dyn_validate_ok(pi, t):
     return True
 
 
+def first_failing_assert(dp, T):
+    M = dyn_meta()
+    for n, a in enumerate(M['asserts']):
+        if a[0] != '-' and dp[int(a[0])] == 0: continue
+        x, _ = aeval(a, 2, dp, T)
+        if x is None: return n
+        if a[1] == 'pow2' and not (x != 0 and x & (x - 1) == 0): return n
+        if a[1] == 'ltusize' and not x < M['usize_max']: return n
+        if a[1] == 'zero' and x != 0: return n
+    return len(M['asserts'])
+
+
+def all_builtins_instance(pi, rng, t=24):
+    """a public input of the dynamic layout with EVERY builtin switched on that the validation accepts: the shipped one with all
+    switches set, repaired by a local search over the parameters of the first failing assertion, then row ratios doubled until the
+    unit budgets hold.  Returns (pi, t) or None (then only the shipped instance is used)."""
+    import copy
+    M = dyn_meta(); ix = M['idx']; A = M['asserts']; consts, _ = ldata('dynamic')
+    T = 1 << t
+    p = copy.deepcopy(pi); dp = p['dyn']
+    for n in ix:
+        if n.startswith('uses_'): dp[ix[n]] = 1
+    cand = [0, 1, 2, 3, 4, 8, 16, 32, 64, 128, 256, 512, 1024, 2048, 4096, 8192, 16384, 32768, 65536, 1 << 17, 1 << 18, 1 << 20]
+    best = first_failing_assert(dp, T)
+    for _ in range(20000):
+        if best == len(A): break
+        vs = [int(x[1:]) for x in A[best][2:] if x[0] == 'd']
+        if not vs: return None
+        v = rng.choice(vs); old = dp[v]; dp[v] = rng.choice(cand)
+        f = first_failing_assert(dp, T)
+        if f >= best: best = f
+        else: dp[v] = old
+    if best != len(A): return None
+    step = dp[ix['cpu_component_step']] * consts['CPU_COMPONENT_HEIGHT']
+    if step == 0 or T % step or (T // step) & (T // step - 1): return None
+    p['lns'] = (T // step).bit_length() - 1
+    for u, r, sg, cells in DYN_BUILTINS:           # no usage at first: every segment empty except what the shipped input uses
+        sgi = consts[sg]
+        if (p['segs'][sgi][1] - p['segs'][sgi][0]) % P > 0 and dp[ix[r]] and ((p['segs'][sgi][1] - p['segs'][sgi][0]) % P) // cells > T // dp[ix[r]]:
+            p['segs'][sgi][1] = p['segs'][sgi][0]
+    for _ in range(400):
+        if dyn_validate_ok(p, t): return p, t
+        u, r, sg, cells = rng.choice(DYN_BUILTINS)    # budgets exceeded: fewer instances of some builtin
+        old = dp[ix[r]]; dp[ix[r]] = min(T, max(1, old) * 2)
+        if first_failing_assert(dp, T) != len(A): dp[ix[r]] = old
+    return None
+
+
 def verify_expect(L, pi):
     """None = reject; else (program values, output values) chosen by ADDRESS"""
     consts, _ = ldata(L)
@@ -193,13 +242,18 @@ def bases():
 
 def cases(rng, tier, feats, drv_ok):
     out = []
-    for L, (pi, t, c) in bases().items():
+    bs = bases()
+    if 'dynamic' in bs:
+        ao = all_builtins_instance(bs['dynamic'][0], rng)
+        if ao: bs['dynamic:all-builtins'] = (ao[0], ao[1], bs['dynamic'][2])
+    for Lname, (pi, t, c) in bs.items():
+        L = Lname.split(':')[0]
         consts, bt = ldata(L)
         hxonly = False
         def V(kind, p, tt=t):
-            out.append({'line': f'validate_pi {L} {pi_tokens(p)} {tt:x} {c:x}', 'kind': 'validate:' + kind, 'L': L, 'pi': p, 't': tt, 'hxonly': hxonly, 'fn': 'validate'})
+            out.append({'line': f'validate_pi {L} {pi_tokens(p)} {tt:x} {c:x}', 'kind': 'validate:' + kind + (':all-builtins' if ':' in Lname else ''), 'L': L, 'pi': p, 't': tt, 'hxonly': hxonly, 'fn': 'validate'})
         def W(kind, p):
-            out.append({'line': f'verify_pi {L} {pi_tokens(p)}', 'kind': 'verify:' + kind, 'L': L, 'pi': p, 'hxonly': hxonly, 'fn': 'verify'})
+            if ':' not in Lname: out.append({'line': f'verify_pi {L} {pi_tokens(p)}', 'kind': 'verify:' + kind, 'L': L, 'pi': p, 'hxonly': hxonly, 'fn': 'verify'})
         def m(f):
             p = copy.deepcopy(pi); f(p); return p
         V('base', pi); W('base', pi)
